@@ -133,7 +133,8 @@ def run(which=None, verbose=True):
     sys.path.insert(0, here)
     scratch = os.environ.get("C03_SCRATCH", "/tmp/c03-mutants")
     src_root = os.path.realpath(os.environ.get("VERIF_REPO", "/repo"))
-    if not os.path.isdir(os.path.join(scratch, "quimb")):
+    shutil.rmtree(os.path.join(scratch, "quimb"), ignore_errors=True)   # always start from the current tree
+    if True:
         shutil.copytree(os.path.join(src_root, "quimb"), os.path.join(scratch, "quimb"),
                         ignore=shutil.ignore_patterns("__pycache__", "*.pyc", "*.nbi", "*.nbc", "*.ipynb"))
     code = ("import sys, json; sys.path.insert(0, %r); import contracts.c03_frame as F; "
